@@ -413,7 +413,8 @@ def cases(rng, tier):
     for _ in range(n):
         yield _case(rng, tier)
     for j in range(nh):   # object histories (second run of a re-configured object)
-        yield c01._history(rng, tier, force="rate_fine" if j < 3 else "shape" if j < 5 else None)
+        yield c01._history(rng, tier, force="rate_fine" if j < 3 else "shape" if j < 5 else None,
+                           how=("mutate" if j % 2 == 0 else "assign") if j < 3 else None)
     for _ in range(nt):   # nucleation at a tiny supercooling
         yield c01._tiny(rng, tier)
 
